@@ -795,11 +795,21 @@ impl Prims {
                 words.push(s(&w));
             }
             let giant = words.join(" ");
-            let recs: Vec<Rec> = vec![(0, "metal mailbox".to_string(), 1), (1, giant.clone(), 2), (2, words[0].clone(), 3)];
+            let mut recs: Vec<Rec> = vec![(0, "metal mailbox".to_string(), 1), (1, giant.clone(), 2), (2, words[0].clone(), 3)];
+            // every other time twelve more records hold about half of the giant's words each: with size 1 more records share
+            // a gram with the query than the cap admits, and the one sharing more than 2^16 grams must head the list
+            let crowd = cx.idx % 80 == 7;
+            if crowd {
+                for k in 0..12 {
+                    let half: Vec<&str> = words.iter().enumerate().filter(|(i, _)| (i + k) % 2 == 0 || i % 12 == k).map(|(_, w)| w.as_str()).collect();
+                    recs.push((3 + k, half.join(" "), 4));
+                }
+                cx.count("capped calls in which one record shares more than 65 536 grams with the query");
+            }
             let st = St::build_sentinel(lang, &recs, 10);
             let rgrams: Vec<BTreeSet<oracle::Gram>> = recs.iter().map(|r| oracle::grams_of(&st.tok_record(&r.1))).collect();
             cx.count("queries with more than 65 536 distinct grams");
-            let desc = json!(format!("3 records; record 1 has {} words of 230 different letters ({} distinct grams)", nwords, rgrams[1].len()));
+            let desc = json!(format!("{} records; record 1 has {} words of 230 different letters ({} distinct grams){}", recs.len(), nwords, rgrams[1].len(), if crowd { "; records 3-14 hold about half of its words each" } else { "" }));
             self.index_check(cx, lang, &st, &recs.len(), &rgrams, &giant, 1, &desc);
             self.index_check(cx, lang, &st, &recs.len(), &rgrams, &words[..nwords / 2].join(" "), 1, &desc);
             return;
@@ -1101,7 +1111,7 @@ impl Prop for Prims {
         match self.0 {
             Which::Distance => vec![("exhaustive pairs", 100000, 2000000), ("prefix cells compared", 1000000, 20000000), ("pairs where a discount lowered the distance", 10000, 100000), ("random pairs beyond capacity 20", 500, 5000), ("long pairs with sampled prefix cells", 200, 2000), ("random cases with per-position character classes", 2000, 20000), ("re-classed repeat calls", 10000, 100000), ("random cases over an alphabet of 41-110 symbols", 3000, 30000), ("random cases over letters related by case or compatibility mappings", 3000, 30000), ("random cases over letters that agree in their low 8, 16 or 20 bits", 3000, 30000), ("calls on a word buffer overwritten in place since the call before", 20000, 200000), ("pairs holding more than 256 different letters", 200, 2000), ("calls with one word held fixed while the other grows", 20000, 200000), ("session calls on one instance", 1000000, 6000000), ("most calls on one instance max ", 131072, 131072), ("hook matrix growths", 3, 3), ("hook matrix max size", 50, 50)],
             Which::Jaccard => vec![("exhaustive pairs", 100000, 1500000), ("pairs with partial overlap", 20000, 200000), ("pairs beyond the initial capacity of 20", 500, 5000), ("calls whose arguments are ranges of one buffer that overlap only partly", 20000, 200000), ("random cases over elements that agree in their low 8, 16 or 20 bits", 1000, 10000), ("calls on a buffer overwritten in place since the call before", 100000, 1000000), ("random cases over a wide alphabet", 1000, 10000), ("hook jaccard accesses", 100000, 1000000)],
-            Which::Index => vec![("prepare calls", 5000, 50000), ("capped calls", 500, 5000), ("calls with ties at the cut", 100, 1000), ("size 0", 300, 3000), ("corpus prepare calls", 200, 2000), ("stores of 1023-5000 records", 50, 500), ("queries with more than 255 distinct grams", 300, 15000), ("calls at the boundary between 'all listed' and 'capped'", 300, 15000), ("session calls on one index", 1000000, 10000000), ("most calls on one index max ", 131000, 131000), ("sessions past 2^17 calls", 2, 20), ("calls with a query without words", 300, 3000), ("sparse indexes of 65 000 - 330 000 records", 16, 160), ("queries with more than 65 536 distinct grams", 2, 50), ("stores of words with letters above U+FFFF and their 16-bit look-alikes", 300, 3000), ("stores of random words and their look-alikes under 8-, 16- or 20-bit packing", 300, 3000)],
+            Which::Index => vec![("prepare calls", 5000, 50000), ("capped calls", 500, 5000), ("calls with ties at the cut", 100, 1000), ("size 0", 300, 3000), ("corpus prepare calls", 200, 2000), ("stores of 1023-5000 records", 50, 500), ("queries with more than 255 distinct grams", 300, 15000), ("calls at the boundary between 'all listed' and 'capped'", 300, 15000), ("session calls on one index", 1000000, 10000000), ("most calls on one index max ", 131000, 131000), ("sessions past 2^17 calls", 2, 20), ("calls with a query without words", 300, 3000), ("sparse indexes of 65 000 - 330 000 records", 16, 160), ("queries with more than 65 536 distinct grams", 2, 50), ("stores of words with letters above U+FFFF and their 16-bit look-alikes", 300, 3000), ("stores of random words and their look-alikes under 8-, 16- or 20-bit packing", 300, 3000), ("capped calls in which one record shares more than 65 536 grams with the query", 1, 25)],
             Which::Unchecked => vec![("direct distance/similarity calls", 20000, 200000), ("direct calls beyond capacity 20", 5000, 50000), ("store-level searches", 5000, 50000), ("store-level rounds with 127-1500 records", 200, 2000), ("store-level rounds with clear and re-add", 500, 5000), ("type-ahead sequences with adds in between", 1000, 10000), ("direct call sequences with words of 76-420 letters", 200, 2000), ("direct call sequences with arithmetic length relations", 300, 3000), ("store-level queries of 65-200 words", 300, 3000), ("searches on a surviving store after a neighbour store was dropped", 3000, 30000), ("stores filled on one thread and searched on another", 500, 5000), ("direct calls whose arguments share their buffers", 5000, 50000), ("jaccard calls on sets of 256-70000 distinct elements", 20, 200), ("hook matrix accesses", 1000000, 10000000), ("hook matrix growths", 3, 3), ("hook matrix max size", 50, 50), ("hook counter accesses", 10000, 100000), ("hook cost accesses", 100000, 1000000), ("hook jaccard accesses", 10000, 100000)],
         }
     }
